@@ -158,7 +158,8 @@ func c14Prop(k *verifkit.Kit) func(c c14Case) error {
 		if len(c.Addrs) > 1 && !slices.Contains(c.Static, want) {
 			cur := c.Addrs
 			pl := c14Plugin(c, &cur)
-			for step, list := range [][]system.IP{c.Addrs, c.Addrs, c.Addrs[1:], c.Addrs[:len(c.Addrs)/2], c.Addrs} {
+			for step, list := range [][]system.IP{c.Addrs, c.Addrs, c.Addrs[1:], c.Addrs[:len(c.Addrs)/2], c.Addrs,
+				vkReflag(c.Addrs, 0), vkReflag(c.Addrs, 3), vkReflag(c.Addrs, 2), vkReflag(c.Addrs, 4), vkReflag(c.Addrs, 1), c.Addrs} { // (... and flags change while the addresses stay)
 				cur = list
 				g, err := c14ApplyOn(c, pl)
 				if v, ok := err.(*verifkit.Violation); ok {
